@@ -51,6 +51,9 @@ type Exec struct {
 	mapSorts          map[string]string
 	curProp           string
 	inGoroutine       bool
+	curFrame          *Frame
+	lastTypeArgs      map[string]types.Type
+	tenvObj           map[*types.TypeParam]string
 }
 
 type localSig struct {
@@ -70,6 +73,7 @@ type Frame struct {
 	entry   *State
 	env     func(st *State) *CEnv // contract environment of this procedure
 	depth   int
+	parent  *Frame // enclosing frame when this one is an inlined call
 }
 
 func (x *Exec) unsupported(n ast.Node, f string, a ...any) {
@@ -94,6 +98,9 @@ func (x *Exec) pos(n ast.Node) string {
 func (x *Exec) oblige(st *State, kind, label string, goal Term, n ast.Node, src string) {
 	if x.dry > 0 || st.dead {
 		return
+	}
+	if kind == "safety" && x.opts["safetyprops"] != "" && x.curProp != "" && !hasProp(splitList(x.opts["safetyprops"]), x.curProp) {
+		return // the safety obligations of this unit are attributed to other properties
 	}
 	if goal.S == "true" {
 		// still counted: trivially discharged obligations are part of the coverage
@@ -173,6 +180,7 @@ func (x *Exec) stmt(st *State, fr *Frame, s ast.Stmt, k func(*State)) {
 	if st.dead {
 		return
 	}
+	x.curFrame = fr
 	x.paths++
 	if x.paths > 200000 {
 		x.unsupported(s, "path explosion")
@@ -497,6 +505,10 @@ func (x *Exec) store(st *State, fr *Frame, l ast.Expr, v Term) {
 	case *ast.IndexExpr:
 		x.storeIndex(st, fr, l, v)
 	case *ast.StarExpr:
+		if loc, ok := x.matchUnsafe(st, fr, l); ok {
+			x.unsafeStore(st, loc, v, l)
+			return
+		}
 		p := x.expr(st, fr, l.X)
 		x.nilCheck(st, p, l)
 		x.storeCell(st, p, v)
@@ -919,4 +931,11 @@ func (x *Exec) panicExit(st *State, fr *Frame, n ast.Node, label, src string) {
 	x.oblige(st, "panic-allowed", label, tOr(conds...), n, src)
 }
 
-func (x *Exec) topFrame(fr *Frame) *Frame { return fr }
+// topFrame: the frame of the procedure under verification (inlined calls propagate their
+// exits to it).
+func (x *Exec) topFrame(fr *Frame) *Frame {
+	for fr.parent != nil {
+		fr = fr.parent
+	}
+	return fr
+}
